@@ -2,7 +2,7 @@ from pyvc.cbase import Registry
 
 
 def build_registry():
-    from . import externs, expect, spawnbase, screen, ansi, utils, transports, lifecycle, readpath
+    from . import externs, expect, spawnbase, screen, ansi, utils, transports, lifecycle, readpath, pxssh
     reg = Registry()
     externs.register(reg)
     spawnbase.register(reg)
@@ -13,4 +13,5 @@ def build_registry():
     transports.register(reg)
     lifecycle.register(reg)
     readpath.register(reg)
+    pxssh.register(reg)
     return reg
